@@ -26,9 +26,13 @@ Definition showo (o : option (list out_row)) : string := match o with Some r => 
 Definition flags (q : jquery) : string :=
   String.concat "," (map (fun m => bs (jm_sym m) ++ bs (metric_safe q m) ++
      bs (existsb (fun r => is_null (raw_col (jm_pk m) (jm_measure m) r)) (nth (jm_slot m) (jq_tables q) []))) (jq_metrics q)).
+(* the hash the model is executed with: injective on the keys that occur (integers, and the strings composite keys are rendered to) *)
+Fixpoint str_code (s : string) (acc : Z) : Z :=
+  match s with EmptyString => acc | String c r => str_code r (acc * 256 + Z.of_nat (Ascii.nat_of_ascii c))%Z end.
+Definition hinj (v : val) : Z := match v with VInt z => (2 * z)%Z | VStr s => (2 * str_code s 1 + 1)%Z | _ => 0%Z end.
 Definition go (ms : list pmodel) (q : pquery) : string :=
   match plan ms q with
-  | PlanOk jq slots => "OK#" ++ showo (run_join hid jq) ++ "#" ++ show (spec_join jq) ++ "#" ++ flags jq ++ "#" ++ String.concat "," slots
+  | PlanOk jq slots => "OK#" ++ showo (run_join hinj jq) ++ "#" ++ show (spec_join jq) ++ "#" ++ flags jq ++ "#" ++ String.concat "," slots
   | PlanMultiFact => "MULTIFACT"
   | PlanError w => "ERR " ++ w
   end.
